@@ -157,7 +157,13 @@ func visitedGuard(fn *ssa.Function, l *natLoop) bool {
 		if !ok {
 			continue
 		}
+		// `if visited[k]` (map[K]bool) or `if _, seen := visited[k]; seen` (set of struct{})
 		lk, ok := iff.Cond.(*ssa.Lookup)
+		if !ok {
+			if ex, isEx := iff.Cond.(*ssa.Extract); isEx && ex.Index == 1 {
+				lk, ok = ex.Tuple.(*ssa.Lookup)
+			}
+		}
 		if !ok {
 			continue
 		}
@@ -666,6 +672,31 @@ func definiteError(v ssa.Value) bool {
 		}
 	case *ssa.MakeInterface:
 		return true
+	case *ssa.UnOp:
+		// a sentinel: package-level error variable whose every store is a definite error
+		if g, ok := x.X.(*ssa.Global); ok && x.Op == token.MUL && g.Pkg != nil {
+			n := 0
+			for _, m := range g.Pkg.Members {
+				f, ok := m.(*ssa.Function)
+				if !ok {
+					continue
+				}
+				fs := append([]*ssa.Function{f}, f.AnonFuncs...)
+				for _, ff := range fs {
+					for _, b := range ff.Blocks {
+						for _, ins := range b.Instrs {
+							if st, ok := ins.(*ssa.Store); ok && st.Addr == ssa.Value(g) {
+								n++
+								if _, again := st.Val.(*ssa.UnOp); again || !definiteError(st.Val) {
+									return false
+								}
+							}
+						}
+					}
+				}
+			}
+			return n > 0
+		}
 	}
 	return false
 }
